@@ -17,6 +17,23 @@ import (
 func (v *Validator) typeOfExpr(env *requestEnv, expr ast.IsNode, caps capabilitySet) (cedarType, capabilitySet, error) {
 	switch n := expr.(type) {
 	case ast.NodeValue:
+		// A set or record value (as the JSON decoder or a program builds it) is typed
+		// like the literal expression it denotes.
+		switch val := n.Value.(type) {
+		case types.Set:
+			elems := make([]ast.IsNode, 0, val.Len())
+			for e := range val.All() {
+				elems = append(elems, ast.NodeValue{Value: e})
+			}
+			return v.typeOfSet(env, ast.NodeTypeSet{Elements: elems}, caps)
+		case types.Record:
+			elems := make([]ast.RecordElementNode, 0, val.Len())
+			for _, k := range slices.Sorted(val.Keys()) {
+				e, _ := val.Get(k)
+				elems = append(elems, ast.RecordElementNode{Key: k, Value: ast.NodeValue{Value: e}})
+			}
+			return v.typeOfRecord(env, ast.NodeTypeRecord{Elements: elems}, caps)
+		}
 		ty, err := v.typeOfValue(n.Value)
 		return ty, caps, err
 
@@ -123,9 +140,18 @@ func (v *Validator) typeOfValue(val types.Value) (cedarType, error) {
 		return typeLong{}, nil
 	case types.String:
 		return typeString{}, nil
+	case types.Decimal:
+		return typeExtension{name: "decimal"}, nil
+	case types.IPAddr:
+		return typeExtension{name: "ipaddr"}, nil
+	case types.Datetime:
+		return typeExtension{name: "datetime"}, nil
+	case types.Duration:
+		return typeExtension{name: "duration"}, nil
 	case types.EntityUID:
+		return v.typeOfEntityUID(val)
 	}
-	return v.typeOfEntityUID(val.(types.EntityUID))
+	return nil, fmt.Errorf("unsupported literal of type %T", val)
 }
 
 func (v *Validator) typeOfEntityUID(uid types.EntityUID) (cedarType, error) {
